@@ -14,6 +14,7 @@ import e2_c09
 import e2_c11
 import e2_c12
 import e3
+import selftest
 from common import BUILD, Machinery
 
 
@@ -223,10 +224,34 @@ PROPS["C12"] = lambda prop, tier, seed, t0: e2_c12.run(prop, tier, seed, t0)
 PROPS["C19"] = lambda prop, tier, seed, t0: e3.run(prop, tier, seed, t0)
 
 
+def run_selftest():
+    """qv-model's exact arithmetic against Python's (differential, enumerated corpus)"""
+    path, n = selftest.write()
+    env_backup = os.environ.get("QV_SELFTEST")
+    os.environ["QV_SELFTEST"] = path
+    try:
+        d = common.run_drive("f64", "selftest", "quick")
+    finally:
+        if env_backup is None:
+            os.environ.pop("QV_SELFTEST", None)
+    if d["n_violations"] or d["counters"].get("transitions", 0) < n:
+        raise Machinery("qv-model self-test failed: %s violations, %s of %s cases: %s" % (
+            d["n_violations"], d["counters"].get("transitions"), n, d["violations"][:2]))
+    print("qv-model self-test: %d cases agree with Python's exact arithmetic" % n)
+    return n
+
+
 def setup():
     t0 = time.time()
     catalogue.generate(BUILD)
     common.build_drives(["f64", "dec"])
+    run_selftest()
+    # warm the E2 / E3 builds so that the first quick checks are fast
+    for b in ("f64", "dec"):
+        e2.artifacts(b)
+    import concurrent.futures as cf
+    with cf.ThreadPoolExecutor(max_workers=8) as ex:
+        list(ex.map(lambda v: e3.build_config(frozenset(), v), e3.VARIANTS))
     print("setup done in %.1fs" % (time.time() - t0))
     return 0
 
